@@ -246,6 +246,11 @@ def run(ck, prog, ctx):
                 src, cnt = t.args[0], t.args[1]
             if src is None:
                 continue
+            # `&bytes[..n]`: the count is the end operand of the range aggregate
+            if cnt.place is not None and cnt.place.is_local():
+                for k_, p_, d_ in pvn.defs(b).get(cnt.place.local, []):
+                    if k_ == "assign" and d_.rv["k"] == "agg" and re.search(r"::Range(To|ToInclusive)?$", d_.rv.get("adt", "")) and d_.rv["ops"]:
+                        cnt = d_.rv["ops"][-1]
             sat = pvn.of_operand(b, src)
             if not any(a[0] == "call" and a[1].endswith("str>::as_bytes") for a in sat):
                 continue
